@@ -4,8 +4,8 @@ from .. import core
 
 def jobs(ctx):
     q = ctx.tier == "quick"
-    js = [("sort_ops", ["rand", 60 if q else 2500, k, 9000 if q else 40000]) for k in range(core.NCPU // 2)]
-    js.append(("sort_ops", ["big", 4 if q else 40, 99]))
+    js = [("sort_ops", ["rand", 250 if q else 4000, k, 9000 if q else 40000]) for k in range(core.NCPU // 2)]
+    js.append(("sort_ops", ["big", 8 if q else 60, 99]))
     return js
 
 
